@@ -406,6 +406,21 @@ def encF (td : TD) (ρ : Nat → String) : List (FieldInfo × GV) → List (Stri
       else encF td ρ fs (insertKV acc fi.name e)
 end
 
+/-! ### unmarshalling -/
+
+/-- mapstructure assigns a string to a field of string kind as it is (the type has no `UnmarshalText`) -/
+def plainStored (s : String) : String := s
+
+/-- `confmap.unmarshalerEmbeddedStructsHookFunc`: a field tagged `,squash` whose struct has its own
+`Unmarshal` is unmarshalled, then **marshalled** (`conf.Marshal(unmarshaler)`) and the resulting map is
+merged into the map the outer struct is decoded from — so an opaque field of it is finally decoded
+from what the encoder wrote for it. -/
+def squashHookStored (td : TD) (s : String) : String :=
+  match enc td (fun _ => s) (.opq 0) with
+  | .ok (.str t) => plainStored t
+  | .ok (.rawTyped t) => plainStored t
+  | _ => s
+
 /-! ### canonical printing (what the harness prints for `Conf.ToStringMap()`) -/
 
 def hexDigit (n : Nat) : Char :=
